@@ -83,6 +83,21 @@ def ob_sparse(opname, mesh, test_spec, trial_spec):
 
 
 def ob_gridfunction(mesh, space_spec, what):
+    try:
+        return _ob_gridfunction(mesh, space_spec, what)
+    except S.Undecided:
+        raise
+    except Exception as ex:  # noqa
+        # the real code left the subset that runs on proxy values (e.g. a scipy product): decide natively instead of failing the check
+        rp = replay_gridfunction_numeric("octa")
+        if rp["violates"]:
+            return violated("GridFunction.%s: symbolic execution not possible (%s: %s); the native contract on the octahedron fails: %s" % (what, type(ex).__name__, str(ex)[:80], rp["problems"][:3]),
+                            witness={"problems": rp["problems"]}, signature="gridfunction/%s/native" % what,
+                            replay={"callable": "checks.c13:replay_gridfunction_numeric", "kwargs": {"gridname": "octa"}, "confirmed": True})
+        return undecided("GridFunction.%s cannot be executed on proxy values (%s: %s); the native contract holds (%.1e)" % (what, type(ex).__name__, str(ex)[:80], rp["worst"]))
+
+
+def _ob_gridfunction(mesh, space_spec, what):
     """post: GridFunction(space, coefficients=c).<what> equals direct quadrature / evaluation of u = sum_d c_d sum_{(E,f)->d} m_{E,f} basis_{E,f}:
        evaluate(E, xi) == u_E(xi); integrate() == sum_E |J_E| sum_q w_q u_E(q); evaluate_on_element_centers()[:, E] == u_E(1/3, 1/3);
        evaluate_on_vertices()[:, v] == area-weighted mean of u_E(v) over support elements E containing v."""
@@ -421,6 +436,83 @@ def ob_function_roundtrip(gridname, jit):
     return held("%d callable flavours, worst %.1e; integrate/l2_norm/vertices/centers/RWG ok" % (len(flavours) + 1, worst))
 
 
+def replay_gridfunction_numeric(gridname):
+    """Native (floats): evaluate_on_vertices, evaluate_on_element_centers, integrate and l2_norm of grid functions with real and complex (dof-wise varying phase)
+    coefficients on whole-grid and (non-leading) segment spaces against direct evaluation / quadrature of the represented function through space.evaluate:
+    vertex value = area-weighted average of the one-sided values over the SUPPORT elements at the vertex; l2_norm^2 = integral of |f|^2 (v^H M v, not v^T M v)."""
+    import bempp_cl.api as api
+    from bempp_cl.api.integration.triangle_gauss import rule
+
+    warnings.simplefilter("ignore")
+    g = Z.grid_with_domains(gridname)
+    par = Z.params(4, 4)
+    q, w = rule(6)
+    rng = np.random.RandomState(2)
+    doms = sorted(set(int(d) for d in g.domain_indices))
+    problems, worst = [], 0.0
+    specs = [("DP", 0, {}), ("DP", 1, {}), ("P", 1, {}), ("RWG", 0, {}), ("DP", 0, {"segments": [doms[1]]}), ("DP", 1, {"segments": [doms[1]]}),
+             ("P", 1, {"segments": [doms[1]], "include_boundary_dofs": True}), ("RWG", 0, {"segments": [doms[1]], "include_boundary_dofs": True})]
+    corners = np.array([[0.0, 1.0, 0.0], [0.0, 0.0, 1.0]])
+    cen = np.array([[1.0 / 3], [1.0 / 3]])
+    for kind, deg, kw in specs:
+        sp = api.function_space(g, kind, deg, **kw)
+        n = sp.global_dof_count
+        for label, c in (("real", rng.randn(n)), ("complex, varying phase", rng.randn(n) * np.exp(1j * rng.uniform(0, 6.28, n)))):
+            gf = api.GridFunction(sp, coefficients=c, parameters=par)
+            tag = "%s%d%s %s" % (kind, deg, kw, label)
+            # vertices
+            num = np.zeros((gf.component_count, g.number_of_vertices), dtype=complex)
+            den = np.zeros(g.number_of_vertices)
+            for E in sp.support_elements:
+                vals = gf.evaluate(int(E), corners)
+                for i in range(3):
+                    vtx = int(g.elements[i, E])
+                    num[:, vtx] += vals[:, i] * g.volumes[E]
+                    den[vtx] += g.volumes[E]
+            used = den > 0
+            want = np.zeros_like(num)
+            want[:, used] = num[:, used] / den[used]
+            got = np.asarray(gf.evaluate_on_vertices())
+            e = float(np.abs(got - want).max() / max(1e-300, np.abs(want).max()))
+            worst = max(worst, e)
+            if e > 1e-12:
+                problems.append("evaluate_on_vertices [%s]: %.2e" % (tag, e))
+            # centres
+            got = np.asarray(gf.evaluate_on_element_centers())
+            want = np.zeros_like(got, dtype=complex)
+            for E in sp.support_elements:
+                want[:, int(E)] = gf.evaluate(int(E), cen)[:, 0]
+            e = float(np.abs(got - want).max() / max(1e-300, np.abs(want).max()))
+            worst = max(worst, e)
+            if e > 1e-12:
+                problems.append("evaluate_on_element_centers [%s]: %.2e" % (tag, e))
+            # integral and norm
+            integ = np.zeros(gf.component_count, dtype=complex)
+            nrm2 = 0.0
+            for E in sp.support_elements:
+                vals = gf.evaluate(int(E), q)
+                integ += g.integration_elements[E] * (vals @ w)
+                nrm2 += g.integration_elements[E] * float(np.sum(w * np.sum(np.abs(vals) ** 2, axis=0)))
+            e = float(np.abs(np.asarray(gf.integrate()) - integ).max() / max(1e-300, np.abs(integ).max()))
+            worst = max(worst, e)
+            if e > 1e-11:
+                problems.append("integrate [%s]: %.2e" % (tag, e))
+            e = abs(gf.l2_norm() - np.sqrt(nrm2)) / np.sqrt(nrm2)
+            worst = max(worst, e)
+            if e > 1e-11:
+                problems.append("l2_norm [%s]: %.2e" % (tag, e))
+    return {"violates": bool(problems), "problems": problems[:8], "worst": worst}
+
+
+def ob_gridfunction_numeric(gridname):
+    r = replay_gridfunction_numeric(gridname)
+    if r["violates"]:
+        return violated("grid-function helpers differ from direct evaluation / quadrature of the represented function on %s: %s" % (gridname, "; ".join(r["problems"][:4])),
+                        witness={"problems": r["problems"]}, signature="gridfunction-numeric",
+                        replay={"callable": "checks.c13:replay_gridfunction_numeric", "kwargs": {"gridname": gridname}, "confirmed": True})
+    return held("8 spaces x real / complex coefficients: vertices, centres, integrate, l2_norm agree to %.1e" % r["worst"])
+
+
 def replay_roundtrip(gridname, jit):
     r = ob_function_roundtrip(gridname, jit)
     return {"violates": r["status"] == "violated", "detail": r["detail"]}
@@ -475,6 +567,7 @@ def main():
     for g in ("octa", "screen2") + (("cube12", "screen3") if thorough else ()):
         run.add("exactness.orders1-20[%s]" % g, "bounded", ob_exactness, g)
     run.add("callables+roundtrip[octa, JIT off]", "bounded", ob_function_roundtrip, "octa", False)
+    run.add("gridfunction-helpers.numeric[octa, whole grid + segments, real + complex]", "bounded", ob_gridfunction_numeric, "octa")
     run.bound("symbolic contracts: tetrahedron / 2x2 screen, 2 generic quadrature points")
     run.bound("exactness: zoo grids, all 20 orders; callable flavours with NUMBA_DISABLE_JIT=1 (jit/objmode wrappers are identity then); thorough tier runs them with JIT on")
     run.assume("scipy coo_matrix sums duplicates; sparse products are matrix products")
